@@ -2046,7 +2046,10 @@ class RedunBackendDb(RedunBackend):
         with self.with_session() as session:
             value_row = session.get(Value, value_hash)
             if value_row:
-                # Value already recorded.
+                # Value already recorded. An earlier recording may have been interrupted
+                # between the Value row and its File/Task row, so ensure that row exists.
+                if isinstance(value, (BaseFile, BaseTask)):
+                    self._record_special_redun_values([value], [value_hash])
                 return value_hash
 
             type_name = self.type_registry.get_type_name(type(value))
@@ -2058,6 +2061,9 @@ class RedunBackendDb(RedunBackend):
                     value=data,
                 )
             )
+            # Record the File/Task row in the same transaction as its Value row, so that an
+            # interruption cannot leave one without the other.
+            self._record_special_redun_values([value], [value_hash], commit=False)
             try:
                 session.commit()
             except sa.exc.IntegrityError:
@@ -2067,12 +2073,12 @@ class RedunBackendDb(RedunBackend):
                 # we can't catch for UniqueViolation or other as it is abstracted away by sqlalchemy
                 value_row = session.get(Value, value_hash)
                 if value_row:
+                    if isinstance(value, (BaseFile, BaseTask)):
+                        self._record_special_redun_values([value], [value_hash])
                     return value_hash
                 else:
                     # something else went wrong
                     raise
-
-            self._record_special_redun_values([value], [value_hash])
 
             # Record subvalues.
             subvalues = list(value_interface.iter_subvalues())
@@ -2082,9 +2088,13 @@ class RedunBackendDb(RedunBackend):
         return value_hash
 
     @use_acquire
-    def _record_special_redun_values(self, values: list[Any], value_hashes: list[str]):
+    def _record_special_redun_values(
+        self, values: list[Any], value_hashes: list[str], commit: bool = True
+    ) -> bool:
         """
         Record special Values such as Files and Tasks
+
+        Returns True if new rows were added. They are committed unless `commit` is False.
         """
         assert self.session
 
@@ -2128,9 +2138,11 @@ class RedunBackendDb(RedunBackend):
                     )
                 )
 
-        if new_inserts:
+        if new_inserts and commit:
             self.session.commit()
+        return new_inserts
 
+    @db_retry
     def _record_subvalues(self, subvalues: list[Any], parent_value_hash: str):
         """
         Record subvalues for a parent Value (parent_value_hash).
@@ -2194,10 +2206,12 @@ class RedunBackendDb(RedunBackend):
                     )
                 )
 
+            # Record File/Task rows in the same transaction as their Value rows.
+            if self._record_special_redun_values(subvalues, value_hashes, commit=False):
+                new_inserts = True
+
             if new_inserts:
                 session.commit()
-
-            self._record_special_redun_values(subvalues, value_hashes)
 
     def _deserialize_value(self, type_name: str, data: bytes) -> tuple[Any, bool]:
         """
